@@ -6,16 +6,16 @@
 (* whether the call created its snapshot (`hc').                            *)
 EXTENDS Snapshotter, Json, TLCExt
 
-VARIABLES l, pre, hc
-mvars == <<vars, l, pre, hc>>
+VARIABLES l, pre, hc, kre
+mvars == <<vars, l, pre, hc, kre>>
 
 TraceLog == ndJsonDeserialize("trace.ndjson")
 Ev == TraceLog[l]
 Fld(f) == f \in DOMAIN Ev
 ToSet(s) == {s[i] : i \in DOMAIN s}
-Empty == [n \in Names |-> NoRec]
+Empty == InitMeta
 
-MonInit == Init /\ l = 1 /\ pre = Empty /\ hc = FALSE
+MonInit == Init /\ l = 1 /\ pre = Empty /\ hc = FALSE /\ kre = <<>>
 
 NewMeta == IF Ev.ev = "Reset" THEN Empty
            ELSE IF Fld("meta") THEN [n \in Names |-> Ev.meta[n]] ELSE meta
@@ -44,11 +44,12 @@ MonNext ==
     /\ hc' = IF Ev.ev \in {"Call", "Reset"} THEN FALSE
              ELSE IF Ev.ev = "Hook" /\ Ev.name = "create.commit" THEN TRUE ELSE hc
     /\ IF Ev.ev = "Reset"
-       THEN dirs' = {} /\ tmps' = 0 /\ mounts' = <<>> /\ stale' = {}
+       THEN dirs' = InitDirs /\ tmps' = 0 /\ mounts' = InitMounts /\ stale' = {}
        ELSE /\ dirs' = ToSet(Ev.dirs) /\ tmps' = Ev.tmps /\ mounts' = Ev.mounts
             /\ stale' = ToSet(Ev.kern) \ MDirsOf(Ev.mounts)
     /\ up' = IF Ev.ev \in {"Reset", "Started"} THEN "up"
              ELSE IF Ev.ev \in {"Crash", "StartFailed"} \/ (Ev.ev = "Return" /\ Ev.op = "Close") THEN "down" ELSE up
+    /\ kre' = IF Ev.ev = "Restart" THEN Ev.kern ELSE kre      \* the kernel's mounts below the root when the start began
     /\ op' = IdleOp /\ seq' = 0 /\ nops' = 0 /\ nrs' = 0 /\ bsurv' = FALSE
 
 \* the formulas, evaluated on the state just loaded; a false one is REPORTED (with the line of the event) and the
@@ -75,7 +76,10 @@ MonC09 ==
     /\ Chk("RestartSucceedsOrPrescribed", RestartSucceedsOrPrescribed')
     /\ Chk("RemountedExactly", RemountedExactly')
     /\ Chk("RestoredWithStoredLabels", RestoredWithStoredLabels')
-    /\ Chk("NoRestoreKeepsMounts", NoRestoreKeepsBody)
+    \* ... and with NoRestore the kernel still serves exactly what it served when the start began
+    /\ Chk("NoRestoreKeepsMounts", NoRestoreKeepsBody /\ ((Ev.ev = "Started" /\ Ev.nr) => Ev.kern = kre))
+    \* after any successful start every entry of the backend table is a kernel mount, counted once
+    /\ Chk("StartedMountsServed", Ev.ev = "Started" => Len(Ev.kern) = Len(mounts') + Cardinality(stale'))
     /\ Chk("RestartPreservesSnapshots", RestartPreservesBody)
     /\ Chk("OneCleanupRemovesHalfMade", OneCleanupRemovesHalfMade')
 
